@@ -40,4 +40,28 @@ def row (cells : List Cell) (blank : Nat := 32) (nl : Nat := 10) : List Nat :=
 def rowWidth (cells : List Cell) : Nat :=
   (cells.map (·.width)).sum + (cells.length - 1) + 1
 
+/-- a registered job as `Scheduler.__str__` sees it: the due instant `sorted(self.jobs)` compares
+    (`BaseJob.__lt__` = `self.datetime < other.datetime`) and the cells of its row (already passed
+    through `str_cutoff` where the code does so) -/
+structure JobRow where
+  due : Int
+  cells : List Cell
+deriving Repr, Inhabited
+
+/-- `sorted(self.jobs)`: a stable ascending sort by due instant of the registry in iteration order -/
+def sortByDue (jobs : List JobRow) : List JobRow :=
+  jobs.mergeSort (fun a b => decide (a.due ≤ b.due))
+
+/-- the job table below the two heading rows: one `row` per job of `sorted(self.jobs)` -/
+def tableRows (jobs : List JobRow) : List (List Nat) :=
+  (sortByDue jobs).map (fun j => row j.cells)
+
+/-- the `#jobs=` field of the heading: `len(self.__jobs)` -/
+def headingCount (jobs : List JobRow) : Nat := jobs.length
+
+/-- a cell as the scheduler table produces it: the text abbreviated to the column width by
+    `str_cutoff` (head or tail cut); `none` only for a column of width 0, which no table has -/
+def cutCell (a : Align) (w : Nat) (tail : Bool) (text : List Nat) : Option Cell :=
+  (strCutoff text w tail).map (fun t => { align := a, width := w, text := t })
+
 end SV
